@@ -41,3 +41,42 @@ pub fn run() {
         println!("{:?}: image={:?} value={:?}", f, img.map(|r| r.map(|t| t.to_string()).map_err(|e| e.to_string())).map_err(|p| p.site()), val.map(|r| r.map(|t| t.to_string()).map_err(|e| e.to_string())).map_err(|p| format!("{} {}", p.site(), p.message)));
     }
 }
+
+/// `qv probe-sql "<sql>" [sd]`: compile one query over E-world, print the relation, the rendering, and the
+/// outcome of both rewritings, with the default panic hook (backtraces) — development aid only.
+pub fn run_sql(sql: &str, sd: bool) {
+    use qrlew::builder::With;
+    use qrlew::differential_privacy::DpParameters;
+    use qrlew::relation::{Relation, Variant as _};
+    use qrlew::privacy_unit_tracking::Strategy;
+    let _ = std::panic::take_hook();
+    let world = crate::world::World::standard();
+    let relations = world.relations();
+    let q = qrlew::sql::parse(sql).expect("parse");
+    let rel = Relation::try_from(q.with(&relations)).expect("relation");
+    println!("relation: {}", rel);
+    println!("schema: {}  size: {}", rel.schema(), rel.size());
+    println!("rendered: {}", qrlew::ast::Query::from(&rel));
+    let synthetic = if sd {
+        Some(qrlew::synthetic_data::SyntheticData::new(qrlew::hierarchy::Hierarchy::from([
+            (vec!["users"], qrlew::expr::Identifier::from("users_sd")),
+            (vec!["orders"], qrlew::expr::Identifier::from("orders_sd")),
+            (vec!["items"], qrlew::expr::Identifier::from("items_sd")),
+            (vec!["ref"], qrlew::expr::Identifier::from("ref_sd")),
+        ])))
+    } else {
+        None
+    };
+    let pu = crate::c18::privacy_unit();
+    let dp = DpParameters::from_epsilon_delta(1.0, 1e-3);
+    for strat in [Strategy::Soft, Strategy::Hard] {
+        match rel.rewrite_as_privacy_unit_preserving(&relations, synthetic.clone(), pu.clone(), dp.clone(), Some(strat)) {
+            Ok(r) => println!("PUP {:?}: {}", strat, qrlew::ast::Query::from(r.relation())),
+            Err(e) => println!("PUP {:?}: Err {}", strat, e),
+        }
+    }
+    match rel.rewrite_with_differential_privacy(&relations, synthetic.clone(), pu.clone(), dp.clone()) {
+        Ok(r) => println!("DP: {}\nevent: {:?}", qrlew::ast::Query::from(r.relation()), r.dp_event()),
+        Err(e) => println!("DP: Err {}", e),
+    }
+}
